@@ -2,6 +2,7 @@ package c10
 
 import (
 	"bytes"
+	"encoding/json"
 	"errors"
 	"fmt"
 	"math/big"
@@ -546,7 +547,15 @@ var boundaryTexts = map[common.TokenType][]string{
 }
 
 func textBoundary(r *ev.Run, kind storeKind, ks ksrig.FullKeyStore) {
-	violation := func(sig string, d interface{}) { r.Violation(storeSig(kind.name(), sig), d) } // Redis variants: signatures start with "redis "
+	violation := func(sig string, d interface{}) { // Redis variants: signatures start with "redis "
+		if kind.redis { // go-redis' 3 s wall-clock read timeout under load is a resource verdict, never a violation
+			if b, err := json.Marshal(d); err == nil && strings.Contains(string(b), "i/o timeout") {
+				r.Inconclusive("redis history: go-redis client-side i/o timeout (wall clock) - " + sig)
+				return
+			}
+		}
+		r.Violation(storeSig(kind.name(), sig), d)
+	}
 	g, err := newRig(kind, ks, true)
 	if err != nil {
 		r.Inconclusive(fmt.Sprintf("text boundary: store %s could not be built: %v", kind.name(), err))
